@@ -188,10 +188,13 @@ pub fn interface(attr: TokenStream, item: TokenStream) -> TokenStream {
     let mut config = Config::default();
 
     for path in attrs {
-        if path.is_ident("ErrorCommands") {
+        // The traits may be named by a path as well (`scpi::ErrorCommands`).
+        let Some(name) = path.segments.last().map(|segment| &segment.ident) else { continue };
+
+        if name == "ErrorCommands" {
             config.error_commands = true;
         }
-        else if path.is_ident("StandardCommands") {
+        else if name == "StandardCommands" {
             config.standard_commands = true;
         }
     }
